@@ -143,6 +143,30 @@ theorem C02_not_applicable_passthrough (e : Engines) (hwf : EnginesWF e) (c : Co
   obtain ⟨ql, hql, hnf, hno⟩ := (handleMain_forward e hwf c u q hb hs).1 happ
   exact ⟨ql, hnf, hno, by unfold handle; rw [shortCircuit_none c q hdom, hql]⟩
 
+/-- **Cache hits are filtered like fresh answers.**  With the dnsproxy cache in
+front of the upstream, every step — hit or miss, whatever the cache holds —
+satisfies the C02 spec with respect to the (stored raw or fresh) upstream
+message it works on; so a stored answer revealing a blocked name is replaced
+on every repetition of the query. -/
+theorem C02_cached_step_meets_spec (e : Engines) (hwf : EnginesWF e) (c : Conf) (cache : Cache)
+    (u : Upstream) (q : Query) :
+    C02.specOK e c (usedUpstream cache u q) q (handleCached e c cache u q).1 = true := by
+  unfold handleCached usedUpstream
+  cases hl : cache.lookup q with
+  | none => exact C02_model_meets_spec e hwf c u q
+  | some stored =>
+    have h := C02_model_meets_spec e hwf c stored q
+    simp only
+    cases ho : handle e c stored q with
+    | err => simp [contacted, ho] at h ⊢; exact h
+    | done m log ql =>
+      rw [ho] at h
+      cases hlog : log.isEmpty
+      · simp only [contacted, hlog, Bool.not_false, if_true, dropLog]
+        simpa [C02.specOK, C02.check] using h
+      · simp only [contacted, hlog, Bool.not_true, Bool.false_eq_true, if_false]
+        exact h
+
 /-! ## Non-vacuity -/
 
 /-- A 93.184.216.34 -/
